@@ -19,12 +19,14 @@ def applyOp (mp : Pool) : Op → Pool
 
 def run (capacity : Nat) (ops : List Op) : Pool := ops.foldl applyOp (new capacity)
 
-/-- every transaction offered to the pool belongs to the universe `U` -/
-def OpsIn (U : Tx → Prop) (ops : List Op) : Prop :=
-  ∀ op ∈ ops, match op with
-    | .add t _ => U t
-    | .verify t _ => U t
-    | _ => True
+/-- the operation offers a transaction of the universe `U` and its `Feer` reports balances below 2^255 -/
+def OpOk (U : Tx → Prop) : Op → Prop
+  | .add t f => U t ∧ FeerOk f
+  | .verify t f => U t ∧ FeerOk f
+  | .removeStale _ f => FeerOk f
+  | .remove _ => True
+
+def OpsIn (U : Tx → Prop) (ops : List Op) : Prop := ∀ op ∈ ops, OpOk U op
 
 theorem inv_new (U : Tx → Prop) (c : Nat) : Inv U (new c) := by
   refine ⟨rfl, Nat.zero_le _, ⟨by simp [new], by simp [new], by simp [new, Sorted], by simp [new], by simp [new]⟩, ?_, ?_, ?_, ?_⟩
@@ -33,9 +35,9 @@ theorem inv_new (U : Tx → Prop) (c : Nat) : Inv U (new c) := by
   · intro i h; simp [new]
   · intro q; simp [new, FeeEntry, sumFees]
 
-theorem inv_add {U : Tx → Prop} (hw : WF U) {mp : Pool} (hi : Inv U mp) {t : Tx} (ht : U t) (feer : Feer) :
-    Inv U (add mp t feer).1 := by
-  obtain ⟨h1, h2⟩ := add_spec hw hi ht feer
+theorem inv_add {U : Tx → Prop} (hw : WF U) {mp : Pool} (hi : Inv U mp) {t : Tx} (ht : U t) (feer : Feer)
+    (hF : FeerOk feer) : Inv U (add mp t feer).1 := by
+  obtain ⟨h1, h2⟩ := add_spec hw hi ht feer hF
   cases hr : add mp t feer with
   | mk mp' r =>
     cases r with
@@ -43,12 +45,12 @@ theorem inv_add {U : Tx → Prop} (hw : WF U) {mp : Pool} (hi : Inv U mp) {t : T
     | some e => exact (h1 mp' e hr).2
 
 theorem inv_applyOp {U : Tx → Prop} (hw : WF U) {mp : Pool} (hi : Inv U mp) (op : Op)
-    (hop : match op with | .add t _ => U t | .verify t _ => U t | _ => True) : Inv U (applyOp mp op) := by
+    (hop : OpOk U op) : Inv U (applyOp mp op) := by
   cases op with
-  | add t feer => exact inv_add hw hi hop feer
+  | add t feer => exact inv_add hw hi hop.1 feer hop.2
   | remove h => exact inv_remove hw hi h
-  | removeStale isOK feer => exact (inv_removeStale hw hi isOK feer).1
-  | verify t feer => exact (verify_spec hw hi hop feer).2
+  | removeStale isOK feer => exact (inv_removeStale hw hi isOK feer hop).1
+  | verify t feer => exact (verify_spec hw hi hop.1 feer hop.2).2
 
 theorem inv_foldl {U : Tx → Prop} (hw : WF U) : ∀ (ops : List Op) (mp : Pool), Inv U mp → OpsIn U ops →
     Inv U (ops.foldl applyOp mp) := by
@@ -67,11 +69,11 @@ theorem inv_reachable {U : Tx → Prop} (hw : WF U) (c : Nat) (ops : List Op) (h
   inv_foldl hw ops (new c) (inv_new U c) ho
 
 theorem capacity_applyOp {U : Tx → Prop} (hw : WF U) {mp : Pool} (hi : Inv U mp) (op : Op)
-    (hop : match op with | .add t _ => U t | .verify t _ => U t | _ => True) :
+    (hop : OpOk U op) :
     (applyOp mp op).capacity = mp.capacity := by
   cases op with
   | add t feer =>
-    obtain ⟨h1, h2⟩ := add_spec hw hi hop feer
+    obtain ⟨h1, h2⟩ := add_spec hw hi hop.1 feer hop.2
     show (add mp t feer).1.capacity = mp.capacity
     cases hr : add mp t feer with
     | mk mp' r =>
@@ -79,8 +81,8 @@ theorem capacity_applyOp {U : Tx → Prop} (hw : WF U) {mp : Pool} (hi : Inv U m
       | none => exact (h2 mp' hr).2.1
       | some e => exact (h1 mp' e hr).1.2.2.2.2.1
   | remove h => exact (inv_removeInternal hw hi h).2.2.1
-  | removeStale isOK feer => exact (inv_removeStale hw hi isOK feer).2.2
-  | verify t feer => exact (verify_spec hw hi hop feer).1.2.2.2.2.1
+  | removeStale isOK feer => exact (inv_removeStale hw hi isOK feer hop).2.2
+  | verify t feer => exact (verify_spec hw hi hop.1 feer hop.2).1.2.2.2.2.1
 
 theorem capacity_foldl {U : Tx → Prop} (hw : WF U) : ∀ (ops : List Op) (mp : Pool), Inv U mp → OpsIn U ops →
     (ops.foldl applyOp mp).capacity = mp.capacity := by
